@@ -93,6 +93,34 @@ def k_conv(ctx):
         ctx.check("two-step-equals-direct", _eq(ctx, via, fa))
 
 
+@harness("C09.converters-arrays", cases=lambda tier: sorted(CONV),
+         expect=lambda c: ["array-equals-scalar", "argument-not-modified"])
+def k_conv_arr(ctx):
+    """array arguments: element-wise the scalar result, and the caller's array is left alone
+    (round trips and two-step routes re-use their input)."""
+    name = ctx.case
+    fn, src, dst = CONV[name]
+    with _molar(ctx):
+        vals = [_domain(ctx, src, "a%d" % i) for i in range(2)]
+        if ctx.sym:
+            arr = np.empty(2, dtype=object)
+            arr[:] = vals
+            env = patched((A, "np", make_np())) if hasattr(A, "np") else patched()
+        else:
+            arr = np.array(vals, dtype=float)
+            env = patched()
+        with env:
+            res = _f(name)(arr)
+        ctx.check("result-shape", np.shape(res) == (2,))
+        for i in range(2):
+            ctx.check("argument-not-modified", _eq(ctx, arr[i], vals[i]))
+            ctx.check("array-equals-scalar", _eq(ctx, res[i], _f(name)(vals[i])))
+        if not ctx.sym:
+            z = np.array(vals[0])          # 0-d array
+            _f(name)(z)
+            ctx.check("argument-not-modified", ctx.close(float(z), vals[0]))
+
+
 # ---- K2: mixed-phase blend ---------------------------------------------------------------------
 def _uf_e(name):
     def f(T):
@@ -253,9 +281,9 @@ def k_lapse(ctx):
 
 
 PLAN = {
-    "quick": {"harnesses": ["C09.converters", "C09.mixed", "C09.nonpositive-T", "C09.rh-vmr", "C09.lapse"],
+    "quick": {"harnesses": ["C09.converters", "C09.converters-arrays", "C09.mixed", "C09.nonpositive-T", "C09.rh-vmr", "C09.lapse"],
               "opts": {"query_timeout_ms": 20000}},
-    "thorough": {"harnesses": ["C09.converters", "C09.mixed", "C09.nonpositive-T", "C09.rh-vmr", "C09.lapse"],
+    "thorough": {"harnesses": ["C09.converters", "C09.converters-arrays", "C09.mixed", "C09.nonpositive-T", "C09.rh-vmr", "C09.lapse"],
                  "opts": {"query_timeout_ms": 120000}},
 }
 BOUNDS = {"quick": {"converters": "all x, q in [0,1), w >= 0, all positive molar masses (symbolic M_w, M_d)",
